@@ -91,7 +91,7 @@ func GenGraphModel(rng *rand.Rand) *Model {
 		m.Types = append(m.Types, t)
 	}
 	rng.Shuffle(len(m.Types), func(i, j int) { m.Types[i], m.Types[j] = m.Types[j], m.Types[i] })
-	return m
+	return emptyRelSometimes(rng, m, 8)
 }
 
 // GenWModel: models for the weighted graph: mostly well-formed TTUs and usersets so that many are
@@ -256,7 +256,7 @@ func GenWModel(rng *rand.Rand) *Model {
 		m.Types = append(m.Types, ty)
 	}
 	rng.Shuffle(len(m.Types), func(i, j int) { m.Types[i], m.Types[j] = m.Types[j], m.Types[i] })
-	return m
+	return emptyRelSometimes(rng, m, 8)
 }
 
 // GenWildModel: wildcard-heavy shapes: a shared relation with several public types (optionally on a
@@ -320,5 +320,5 @@ func GenWildModel(rng *rand.Rand) *Model {
 	}
 	m.Types = append(m.Types, doc)
 	rng.Shuffle(len(m.Types), func(i, j int) { m.Types[i], m.Types[j] = m.Types[j], m.Types[i] })
-	return m
+	return emptyRelSometimes(rng, m, 8)
 }
